@@ -13,16 +13,18 @@ from .tlc import MachineryError
 # property -> (level, [engine module names])
 REGISTRY = {
     "C01": ("model_checking", ["bloomfam"]),
+    "C02": ("model_checking", ["countmin"]),
     "C03": ("model_checking", ["cuckoo"]),
     "C04": ("model_checking", ["qf"]),
-    "C05": ("model_checking", ["bloomfam", "cuckoo"]),
+    "C05": ("model_checking", ["bloomfam", "countmin", "cuckoo"]),
     "C08": ("model_checking", ["bloomfam", "cuckoo"]),
-    "C12": ("model_checking", ["bloomfam"]),
-    "C13": ("model_checking", ["bloomfam"]),
-    "C14": ("model_checking", ["bloomfam", "qf", "cuckoo"]),
-    "C16": ("model_checking", ["bloomfam"]),
+    "C12": ("model_checking", ["bloomfam", "countmin"]),
+    "C13": ("model_checking", ["bloomfam", "countmin"]),
+    "C14": ("model_checking", ["bloomfam", "countmin", "qf", "cuckoo"]),
+    "C16": ("model_checking", ["bloomfam", "countmin"]),
     "C15": ("model_checking", ["cuckoo"]),
-    "C19": ("model_checking", ["bloomfam", "qf", "cuckoo"]),
+    "C17": ("model_checking", ["countmin"]),
+    "C19": ("model_checking", ["bloomfam", "countmin", "qf", "cuckoo"]),
     "C20": ("model_checking", ["bitarray"]),
 }
 
@@ -31,9 +33,29 @@ def run_check(prop, tier, seed):
     level, engines = REGISTRY[prop]
     t0 = time.time()
     total = Tally(prop)
+    results, errors = {}, []
+
+    def one(en):
+        try:
+            mod = importlib.import_module(f"vlib.engines.{en}")
+            results[en] = mod.run(prop, tier, seed)
+        except Exception as exc:  # noqa
+            errors.append(exc)
+
+    # engines run concurrently (each one is mostly waiting for its TLC processes and workers)
+    import threading
+
+    group = 2 if tier == "quick" else 1
+    for i in range(0, len(engines), group):
+        ths = [threading.Thread(target=one, args=(en,)) for en in engines[i:i + group]]
+        for th in ths:
+            th.start()
+        for th in ths:
+            th.join()
+    if errors:
+        raise errors[0]
     for en in engines:
-        mod = importlib.import_module(f"vlib.engines.{en}")
-        total.merge(mod.run(prop, tier, seed))
+        total.merge(results[en])
     return core.finish(total, tier, seed, level, time.time() - t0)
 
 
